@@ -422,6 +422,8 @@ def run(ctx: Ctx):
     for f_ in ctx.owned():
         if f_.module.relname != rel:
             continue
+        from sa.inline import Inliner as _InlRate
+        inl_rate = _InlRate(f_.node)
         for n in own_nodes(f_.node):
             tests_ = []
             if isinstance(n, (ast.If, ast.IfExp, ast.While)):
@@ -429,7 +431,7 @@ def run(ctx: Ctx):
             elif isinstance(n, ast.Assert):
                 tests_ = [n.test]
             for t_ in tests_:
-                stack = [t_]
+                stack = [inl_rate.expand(t_)]  # (the rate held in a local is the same rate)
                 while stack:
                     x = stack.pop()
                     if isinstance(x, ast.BoolOp):
